@@ -143,14 +143,16 @@ pub fn programs_for(flavour: crate::sup::Flavour, tier: crate::sup::Tier) -> Vec
 }
 
 /// the scale programs in which size is a matter of the heap (objects alive across collections, number of collections,
-/// nesting depth), up to 4 097 of something: for the heap monitors of C03 / C04. Built once per process.
-pub fn heap_programs() -> &'static Vec<(String, String)> {
-    static CACHE: std::sync::OnceLock<Vec<(String, String)>> = std::sync::OnceLock::new();
-    CACHE.get_or_init(|| {
-        programs(false)
+/// nesting depth), up to 4 097 of something (`big`: up to 70 000): for the heap monitors of C03 / C04. Built once per process.
+pub fn heap_programs(big: bool) -> &'static Vec<(String, String)> {
+    static SMALL_CACHE: std::sync::OnceLock<Vec<(String, String)>> = std::sync::OnceLock::new();
+    static BIG_CACHE: std::sync::OnceLock<Vec<(String, String)>> = std::sync::OnceLock::new();
+    let (cache, limit) = if big { (&BIG_CACHE, 70_000) } else { (&SMALL_CACHE, 4097) };
+    cache.get_or_init(|| {
+        programs(big)
             .into_iter()
             .filter(|(n, _)| {
-                size_of(n) <= 4097
+                size_of(n) <= limit
                     && ["floats-alive-", "strings-alive-", "nested-arrays-alive-", "collections-", "nesting-alive-", "float-locals-across-calls-", "string-multibyte-"].iter().any(|p| n.starts_with(p))
             })
             .collect()
